@@ -3,5 +3,7 @@ CONSTANTS
   Dev <- DevIdeal
   Known <- FileKnown
   Names <- FileNames
+  Sites <- FileSites
+  NsFns <- FileNsFns
 INVARIANT Emit
 CHECK_DEADLOCK FALSE
